@@ -75,10 +75,12 @@ func vsymTopic() string {
 
 func VsymC23_SQLDecision() {
 	var a ACL
-	for i := 0; i < vsym_Param("nd"); i++ {
+	// list shapes {deny entries, allow entries}; the full 2 x 2 product does not finish
+	shape := [][2]int{{0, 0}, {1, 0}, {0, 1}, {1, 1}, {2, 0}, {0, 2}, {2, 1}, {1, 2}}[vsym_Param("shape")]
+	for i := 0; i < shape[0]; i++ {
 		a.Deny = append(a.Deny, vsymPattern("deny"))
 	}
-	for i := 0; i < vsym_Param("na"); i++ {
+	for i := 0; i < shape[1]; i++ {
 		a.Allow = append(a.Allow, vsymPattern("allow"))
 	}
 	topic := vsymTopic()
